@@ -1264,21 +1264,27 @@ def warnings_from_stats(stats):
 RULE = (
     "Each run generates one case: a simple grid (1-3 axes, each with center plus a random subset of "
     "left/right/inner/outer, 2-7 (thorough 2-9) cells, 0-2 extra dimensions, per-axis boundary rules and fill "
-    "values, optional dyadic metrics) or a face-connected grid (2-6 faces of NxN cells; cubed sphere, KxxKy tilings "
-    "or a random reciprocal link table with axis swaps and reversals), integer-valued float64/float32 data "
-    "(optionally with NaNs) in a random dimension order, an operation (diff/interp/min/max over 1-3 axes with all "
-    "valid shifts, cumsum, derivative, integrate, average, cumint, metric_weighted, user grid ufuncs with 1-2 inputs "
-    "and generated integer stencils via apply_as_grid_ufunc or as_grid_ufunc with and without map_overlap, vector "
-    "components with other_component, diff_2d_vector/interp_2d_vector), and an independent random composition of "
-    "every dimension length into chunks (face grids: face and non-spatial dimensions only); in half of the metric "
-    "cases the grid dataset is chunked too. The op is run eagerly, built lazily under a monitor (0 computations "
-    "allowed, result must be dask-backed), and computed under 3 (thorough 8) schedules: the real synchronous "
-    "scheduler plus simulated schedules (policy in dask-order/random/lifo/fifo/reverse-priority/boundary-last; "
-    "faults: duplicate execution, evict+recompute, read-only delivery, copy delivery; fusion on/off); a fifth of "
-    "the cases compute two different results of the same lazy input in one graph. Every computed result must equal "
-    "the eager one exactly (values incl. NaN placement, dims order, dtype, coords, name, attrs). Non-trivial = "
-    "some dimension has > 1 chunk and some schedule had >= 2 ready tasks at once. Distinct = digest of (grid kind, "
-    "op, axes, kwarg names, `to`, input dim order, chunk tuples, lazy dataset?, position sets)."
+    "values, optional dyadic metrics incl. metrics that vary along other axes, optional non-index coordinates) or a "
+    "face-connected grid (2-6 faces of NxN cells; cubed sphere, KxxKy tilings or a random reciprocal link table with "
+    "axis swaps and reversals, 40% written sparsely), integer-valued float64/float32 data (optionally with NaNs, "
+    "optionally carrying a scalar and a non-index coordinate the grid dataset does not know) in a random dimension "
+    "order, an operation (diff/interp/min/max over 1-3 axes with all valid shifts, cumsum, derivative, integrate, "
+    "average, cumint, metric_weighted, user grid ufuncs with 1-2 inputs, 1-2 axes and generated integer stencils via "
+    "apply_as_grid_ufunc or as_grid_ufunc with and without map_overlap and with boundary_width listed in any order, "
+    "two-axis user ufuncs on face-connected grids, vector components with other_component, diff_2d_vector/"
+    "interp_2d_vector), and an independent random composition of every dimension length into chunks (face grids: face "
+    "and non-spatial dimensions only); the grid dataset is chunked too, independently of the data, in half of the "
+    "metric cases and in a dedicated family of metric-aware multi-axis operations. The op is run eagerly, built lazily "
+    "under a monitor (0 computations allowed through the configured scheduler, dask.local.get_sync, dask.threaded.get "
+    "or the named-scheduler table; result must be dask-backed), and computed under 3 (thorough 8) schedules: the real "
+    "synchronous scheduler plus simulated schedules (policy in dask-order/random/lifo/fifo/reverse-priority/"
+    "boundary-last; faults: duplicate execution, evict+recompute, read-only delivery, copy delivery, concurrent task "
+    "pairs interleaved at line granularity; fusion on/off); 30% of the stencil cases compute a second result (other "
+    "op, same op on other data, same op with other kwargs) in the same graph; finally a random window of the lazy "
+    "result is computed on its own. Every computed result must equal the eager one (values up to 1e-10 relative, NaN "
+    "placement, dims order, dtype, coords, name, attrs exactly). Non-trivial = some dimension has > 1 chunk and some "
+    "schedule had >= 2 ready tasks at once. Distinct = digest of (grid kind, op, axes, kwarg names, `to`, input dim "
+    "order, chunk tuples, lazy dataset?, position sets)."
 )
 
 COMPONENTS = {
@@ -1290,7 +1296,7 @@ COMPONENTS = {
 
 ASSUMPTIONS = [
     "the oracle is eager xgcm on the same data, as C06 states; a change that breaks eager and lazy identically is invisible here by construction",
-    "integer-valued / dyadic data make every sum exact, so bitwise comparison needs no tolerance",
+    "integer-valued / dyadic data keep almost every intermediate exact; values are still compared with a relative tolerance of 1e-10 because a metric interpolated between two dyadic values makes a division inexact and chunked reductions re-associate sums",
     "serial schedules plus buffer-delivery faults stand in for concurrent execution: xgcm task functions share no mutable state other than the chunk buffers they are handed",
     "NotImplementedError is accepted only when the exempt condition computed from the case spec holds (input chunked along an operated axis whose shift starts or ends at inner/outer; for metric operations on a lazy grid dataset: any array in play chunked along an axis that owns an inner/outer position)",
     "exploration by seeded sampling, not exhaustive",
